@@ -471,126 +471,117 @@ func resolveLocal(v ssa.Value) ssa.Value {
 }
 
 func c08PathMapping(p *Prog, r *Report) {
-	pm := p.Func(coqPkg, "pathToCoqPath")
+	// the path mapping, found by role: the func(string) string of the printer whose result is a chain of
+	// strings.ReplaceAll over its parameter
+	var pm *ssa.Function
+	mapped := func(arg string) string { return "" }
+	for _, g := range p.FuncsIn(coqPkg) {
+		if g.Parent() != nil || g.Signature.Recv() != nil || g.Signature.Params().Len() != 1 || g.Signature.Results().Len() != 1 {
+			continue
+		}
+		if types.TypeString(g.Signature.Params().At(0).Type(), nil) != "string" || types.TypeString(g.Signature.Results().At(0).Type(), nil) != "string" {
+			continue
+		}
+		ips, ok := p.ipaths(g)
+		if !ok || len(ips) != 1 || len(ips[0].Ret) != 1 {
+			continue
+		}
+		k := ips[0].Ret[0]
+		reps := map[string]string{}
+		inner := k
+		for {
+			n, a, ok := parseCallKey(inner)
+			if !ok || n != "strings.ReplaceAll" || len(a) != 3 {
+				break
+			}
+			reps[strings.Trim(a[1], `"`)] = strings.Trim(a[2], `"`)
+			inner = a[0]
+		}
+		if len(reps) == 0 || inner != g.Params[0].Name() {
+			continue
+		}
+		pm = g
+		pn := g.Params[0].Name()
+		mapped = func(arg string) string { return substIdents(k, map[string]string{pn: arg}) }
+		r.Func(FuncName(pm))
+		r.Check("R08d", "pathToCoqPath maps '.' and '-' to '_'", pm.Pos(), reps["."] == "_" && reps["-"] == "_" && len(reps) == 2, fmt.Sprintf("replacements: %v", reps))
+	}
 	if pm == nil {
-		r.Anchor("R08d", "coq.pathToCoqPath")
+		r.Anchor("R08d", "the path mapping of the printer (a strings.ReplaceAll chain over an import path)")
 		return
 	}
-	r.Func(FuncName(pm))
-	reps := map[string]string{}
-	p.instrs(pm, func(b *ssa.BasicBlock, i int, in ssa.Instruction) {
-		if c, ok := in.(*ssa.Call); ok && calleeName(c) == "strings.ReplaceAll" {
-			from, _ := constString(c.Call.Args[1])
-			to, _ := constString(c.Call.Args[2])
-			reps[from] = to
-		}
-	})
-	r.Check("R08d", "pathToCoqPath maps '.' and '-' to '_'", pm.Pos(), reps["."] == "_" && reps["-"] == "_" && len(reps) == 2, fmt.Sprintf("replacements: %v", reps))
-	onlyThrough := func(f *ssa.Function, src ssa.Value, what string) {
-		bad := []string{}
-		n := 0
-		for _, rf := range refs(src) {
-			switch x := rf.(type) {
-			case *ssa.Call:
-				if calleeOf(&x.Call) == pm {
-					n++
-					continue
-				}
-				bad = append(bad, "passed to "+calleeName(x))
-			case *ssa.DebugRef:
-			default:
-				bad = append(bad, "used by "+rf.String())
+	// onlyMapped: every occurrence of src in the keys lies inside the mapping applied to src
+	onlyMapped := func(keys []string, src string) (n int, bad string) {
+		m := mapped(src)
+		for _, k := range keys {
+			n += strings.Count(k, m)
+			rest := strings.ReplaceAll(k, m, "§")
+			if replaceToken(rest, src, "\x00") != rest {
+				bad = rest
 			}
 		}
-		r.Check("R08d", what, f.Pos(), len(bad) == 0 && n >= 1,
-			"the unmapped path is used directly ("+strings.Join(bad, "; ")+"): the Require/file name would keep '.' or '-' that the other side maps to '_'")
+		return n, bad
 	}
 	if f := p.Func(coqPkg, "ImportDecl.CoqDecl"); f != nil {
 		r.Func(FuncName(f))
-		// loads of decl.Path
-		var loads []ssa.Value
-		p.instrs(f, func(b *ssa.BasicBlock, i int, in ssa.Instruction) {
-			if v, ok := in.(ssa.Value); ok {
-				if _, fld, okf := fieldOf(v); okf && fld == "Path" {
-					if _, isAddr := v.(*ssa.FieldAddr); !isAddr {
-						loads = append(loads, v)
+		ips, ok := p.ipaths(f)
+		src := ""
+		if len(f.Params) > 0 {
+			src = f.Params[0].Name() + ".Path"
+		}
+		nTot, bad := 0, ""
+		okT := ok
+		for _, ip := range ips {
+			if ip.Exit != "return" {
+				continue
+			}
+			keys := append([]string{}, ip.Ret...)
+			trusted := ip.Rels[eqRel("true", f.Params[0].Name()+".Trusted")] || ip.Rels[f.Params[0].Name()+".Trusted == true"]
+			for _, e := range ip.Events {
+				if e.Key != "" && strings.Contains(mapped(src), e.Key) {
+					continue // a step of the mapping itself
+				}
+				keys = append(keys, e.Args...)
+				if e.Callee == "fmt.Sprintf" && len(e.Args) > 0 {
+					if strings.Contains(e.Args[0], "goose_lang.trusted") != trusted || !strings.Contains(e.Args[0], "Require") {
+						okT = false
 					}
 				}
 			}
-		})
-		if len(loads) == 0 {
-			r.Unknown("R08d", "Require path goes through pathToCoqPath", f.Pos(), "no read of ImportDecl.Path")
-		}
-		for _, l := range loads {
-			onlyThrough(f, l, "Require path goes through pathToCoqPath")
-		}
-		// trusted namespace selection
-		rm := p.Rels(f)
-		okT := true
-		p.instrs(f, func(b *ssa.BasicBlock, i int, in ssa.Instruction) {
-			if c, ok := in.(*ssa.Call); ok && calleeName(c) == "fmt.Sprintf" {
-				fs, _ := constString(c.Call.Args[0])
-				rs := p.RelsAt(rm, c)
-				trusted := false
-				for k := range rs {
-					if strings.HasSuffix(k, ".Trusted == true") {
-						trusted = true
-					}
-				}
-				if strings.Contains(fs, "goose_lang.trusted") != trusted {
-					okT = false
-				}
-				if !strings.Contains(fs, "Require") {
-					okT = false
-				}
+			n, b := onlyMapped(keys, src)
+			nTot += n
+			if b != "" {
+				bad = b
 			}
-		})
+		}
+		r.Check("R08d", "Require path goes through pathToCoqPath", f.Pos(), ok && nTot >= 1 && bad == "",
+			"the unmapped path is used directly ("+bad+"): the Require/file name would keep '.' or '-' that the other side maps to '_'")
 		r.Check("R08d", "trusted imports use the trusted namespace", f.Pos(), okT, "the trusted Require form must be emitted exactly under decl.Trusted")
 	} else {
 		r.Anchor("R08d", "coq.ImportDecl.CoqDecl")
 	}
 	if f := p.Func(coqPkg, "ImportToPath"); f != nil {
 		r.Func(FuncName(f))
-		onlyThrough(f, f.Params[0], "output file path goes through pathToCoqPath")
-		okV := false
-		p.instrs(f, func(b *ssa.BasicBlock, i int, in ssa.Instruction) {
-			ret, ok := in.(*ssa.Return)
-			if !ok {
-				return
+		ips, ok := p.ipaths(f)
+		src := f.Params[0].Name()
+		nTot, bad, okV, shape := 0, "", ok, ""
+		for _, ip := range ips {
+			if ip.Exit != "return" || len(ip.Ret) != 1 {
+				continue
 			}
-			// collect callees and constants in the backward closure of the result (through call arguments)
-			callees := map[string]bool{}
-			consts := map[string]bool{}
-			seen := map[ssa.Value]bool{}
-			var walk func(v ssa.Value)
-			walk = func(v ssa.Value) {
-				if v == nil || seen[v] {
-					return
-				}
-				seen[v] = true
-				if c, ok := v.(*ssa.Call); ok {
-					callees[calleeName(c)] = true
-				}
-				if s, ok := constString(v); ok {
-					consts[s] = true
-				}
-				for _, o := range flowOperands(v) {
-					if o != v {
-						walk(o)
-					}
-					if c, ok := o.(*ssa.Call); ok {
-						for _, a := range c.Call.Args {
-							walk(a)
-						}
-					}
-				}
+			n, b := onlyMapped(ip.Ret, src)
+			nTot += n
+			if b != "" {
+				bad = b
 			}
-			walk(ret.Results[0])
-			if callees["path.Dir"] && callees["path.Base"] && consts[".v"] && callees[coqPkg+".pathToCoqPath"] {
-				okV = true
+			rest := strings.ReplaceAll(ip.Ret[0], mapped(src), "§")
+			if rest != `path/filepath.Join([path.Dir(§),(path.Base(§) + ".v")])` && rest != `path.Join([path.Dir(§),(path.Base(§) + ".v")])` {
+				okV, shape = false, rest
 			}
-		})
-		r.Check("R08d", "output file is <dir>/<base>.v of the mapped path", f.Pos(), okV, "")
+		}
+		r.Check("R08d", "output file path goes through pathToCoqPath", f.Pos(), ok && nTot >= 1 && bad == "",
+			"the unmapped path is used directly ("+bad+"): the Require/file name would keep '.' or '-' that the other side maps to '_'")
+		r.Check("R08d", "output file is <dir>/<base>.v of the mapped path", f.Pos(), okV && nTot >= 1, "the result is "+shape)
 	} else {
 		r.Anchor("R08d", "coq.ImportToPath")
 	}
